@@ -152,6 +152,9 @@ func processStorageKeys(storageKeys []StorageKeys) ([]StorageKeys, *jsonrpc.Erro
 		return nil, nil
 	}
 
+	// contracts_storage_proofs[i] must belong to the i-th (distinct) requested contract: remember the
+	// order of first occurrence instead of ranging over the map below.
+	order := make([]felt.Felt, 0, len(storageKeys))
 	merged := make(map[felt.Felt][]felt.Felt, len(storageKeys))
 	for _, sk := range storageKeys {
 		// Ensure that both contract and keys are provided
@@ -163,12 +166,15 @@ func processStorageKeys(storageKeys []StorageKeys) ([]StorageKeys, *jsonrpc.Erro
 		}
 
 		contract := *sk.Contract
+		if _, seen := merged[contract]; !seen {
+			order = append(order, contract)
+		}
 		merged[contract] = append(merged[contract], sk.Keys...)
 	}
 
 	uniqueStorageKeys := make([]StorageKeys, 0, len(merged))
-	for contract, keys := range merged {
-		uniqueStorageKeys = append(uniqueStorageKeys, StorageKeys{Contract: &contract, Keys: utils.Set(keys)})
+	for _, contract := range order {
+		uniqueStorageKeys = append(uniqueStorageKeys, StorageKeys{Contract: &contract, Keys: utils.Set(merged[contract])})
 	}
 
 	return uniqueStorageKeys, nil
